@@ -339,7 +339,7 @@ def match_sequence_type(value: Any,
                     return False
                 if isinstance(v, ElementNode) and v.type_name != XSD_UNTYPED:
                     return False
-            else:
+            elif type_name != 'xs:anyType':  # every type is derived from xs:anyType
                 try:
                     if not is_instance(v.typed_value, type_name, parser):
                         return False
